@@ -47,14 +47,15 @@ TIERS = {
         solo_seeds=4, pair_maxlen=3, deep_windows=0, incant_maxlen=2,
         quota={(1, 3): 3, (1, 2): 1, (2, 2): 1, (2, 3): 2, (3, 3): 1},
         solo_reuse=[('reuse',)],
-        incant_other=3, deadline_s=300),
+        incant_other=3, deadline_s=120, xeng3_required=8, pair_two_seeds=4),
     'thorough': dict(
         solo_seeds=8, pair_maxlen=3, deep_windows=6, incant_maxlen=2,
         quota={(1, 3): 10, (1, 2): 4, (2, 2): 2, (2, 3): 6, (3, 3): 2,
                (1, 4): 16, (2, 4): 6, (3, 4): 3, (4, 4): 1},
         solo_reuse=[('reuse',), ('parse', 'reuse'), ('reuse', 'parse'),
                     ('reuse', 'reuse')],
-        incant_other=30, deadline_s=600),
+        incant_other=30, deadline_s=600, xeng3_required=56,
+        pair_two_seeds=2),
 }
 
 RULE = (
@@ -64,9 +65,19 @@ RULE = (
     'parser-flag-sensitive, stop-signal), harness.genrec / genfun / gen '
     'programs.  Windows over the corpus index set: solo {p} x all seeds x '
     'parse x 1 Compile; soloreuse {p} x 1 seed x {parse, reuse} x <= 2 '
-    'Compiles; incant {incantation program, parser-flag-sensitive '
-    'program(s)}; pair {a, b} x 2 seeds x {parse, reuse} x <= 3 Compiles '
-    '(every program is in a pair); thorough adds windows with <= 4 Compiles. '
+    'Compiles; incant {incantation program - compiling, or FAILING to parse '
+    '(syntax error, missing import) -, parser-flag-sensitive program(s) incl. '
+    '`2*(x+1)` and `<=>`}; xeng2 / xeng3 {victim programs of 2 / 3 engines}, '
+    'for every unordered pair / triple of the 8 engines (a victim calls every '
+    'built-in whose translation differs between two dialects, derived from '
+    'the tables of the tree under test); failx {a program failing at stage '
+    'parse | compile | type | exec, victim of another engine}; pair {a, b} x '
+    '1-2 seeds x {parse, reuse} x <= 3 Compiles (every program is in a pair); '
+    'thorough adds windows with <= 4 Compiles.  Always replayed: baseline, '
+    'incantation immediately followed by a sensitive program, both orders of '
+    'every engine pair, a sample of ordered engine triples (thorough: one per '
+    'triple; the rest under budget), failing step then victim, failing '
+    'program from a kept rules object. '
     'TLC (History.tla) enumerates ALL histories of every window.  Replayed on '
     'the real code: all solo histories, the listed soloreuse histories, all '
     'single-process histories of incant windows, and a seeded sample of the '
@@ -84,39 +95,76 @@ RULE = (
 
 def Windows(entries, tier):
   """The index sets History.tla ranges over.  Every window is
-  {progs, seeds, modes, maxlen, incant, sensitive, tag}."""
+  {tag, progs, seeds, modes, maxlen, incant, sensitive, victims, attrs}."""
   cfg = TIERS[tier]
   rng = common.Rng('c13-windows')
   solo_seeds = SEED_POOL[:cfg['solo_seeds']]
+  by_idx = {e['idx']: e for e in entries}
+  by_id = {e['id']: e for e in entries}
   inc = {e['idx'] for e in entries if 'incantation' in e['kind']}
   sens = {e['idx'] for e in entries if 'toomuch' in e['kind']}
+  vict = {e['idx'] for e in entries if 'victim' in e['kind']}
+  failing = [e['idx'] for e in entries if 'failing' in e['kind']]
   cost = {e['idx']: (3 if e['id'].split('/')[-1].split(':')[0]
                      in c13corpus.HEAVY else 1) for e in entries}
   windows = []
 
   def Add(tag, progs, seeds, modes, maxlen):
-    windows.append({'tag': tag, 'progs': sorted(progs), 'seeds': list(seeds),
+    progs = sorted(set(progs))
+    windows.append({'tag': tag, 'progs': progs, 'seeds': list(seeds),
                     'modes': list(modes), 'maxlen': maxlen,
                     'incant': sorted(set(progs) & inc),
-                    'sensitive': sorted(set(progs) & sens)})
+                    'sensitive': sorted(set(progs) & sens),
+                    'victims': sorted(set(progs) & vict),
+                    'attrs': [{'n': p, 'stage': by_idx[p]['fail_stage'],
+                               'eng': by_idx[p]['engine']} for p in progs]})
   for e in entries:
     Add('solo', [e['idx']], solo_seeds, ['parse'], 1)
   for e in entries:
     Add('soloreuse', [e['idx']], [solo_seeds[e['idx'] % len(solo_seeds)]],
         ['parse', 'reuse'], 2)
-  # the incantation followed by programs whose parse depends on the flag
+  # an incantation program - one that compiles or one whose parse FAILS -
+  # followed by programs whose parse depends on the flag
   light_inc = sorted(i for i in inc if cost[i] == 1)
+  fail_inc = [i for i in light_inc if by_idx[i]['fail_stage'] == 'parse']
   sens_l = sorted(sens)
-  for k, s in enumerate(sens_l):
-    i = light_inc[k % len(light_inc)]
-    Add('incant', [i, s], [solo_seeds[k % len(solo_seeds)]],
+  pairs_is = [(light_inc[k % len(light_inc)], s_)
+              for k, s_ in enumerate(sens_l)]
+  tight = [by_id[x]['idx'] for x in ('tm/paren', 'tm/equiv', 'tm/paren_psql',
+                                     'tm/size') if x in by_id]
+  for k, f in enumerate(fail_inc):
+    for s_ in tight[:3] if tier == 'thorough' else (tight[k % 2::2])[:2]:
+      if (f, s_) not in pairs_is:
+        pairs_is.append((f, s_))
+  for k, (i, s_) in enumerate(pairs_is):
+    Add('incant', [i, s_], [solo_seeds[k % len(solo_seeds)]],
         ['parse', 'reuse'] if k % 2 == 0 or tier == 'thorough' else ['parse'],
         cfg['incant_maxlen'])
   if len(sens_l) >= 2 and light_inc:
-    Add('incant3', [light_inc[-1], sens_l[0], sens_l[-1]], [solo_seeds[0]],
-        ['parse'], 3)
+    Add('incant3', [fail_inc[0] if fail_inc else light_inc[-1], tight[0],
+                    sens_l[0]], [solo_seeds[0]], ['parse'], 3)
   for i in sorted(i for i in inc if cost[i] > 1):
     Add('incant', [i, sens_l[0]], [solo_seeds[0]], ['parse'], 2)
+  # cross-engine: every unordered pair / triple of engines, both (all) orders
+  # are histories of the window
+  vs = sorted(vict, key=lambda p: by_idx[p]['engine'])
+  k = 0
+  for a in range(len(vs)):
+    for b in range(a + 1, len(vs)):
+      Add('xeng2', [vs[a], vs[b]], [solo_seeds[k % len(solo_seeds)]],
+          ['parse'], 2)
+      k += 1
+  for a in range(len(vs)):
+    for b in range(a + 1, len(vs)):
+      for c in range(b + 1, len(vs)):
+        Add('xeng3', [vs[a], vs[b], vs[c]], [solo_seeds[k % len(solo_seeds)]],
+            ['parse'], 3)
+        k += 1
+  # a FAILING step of every stage, then a victim of another engine
+  for k, f in enumerate(failing):
+    other = [v for v in vs if by_idx[v]['engine'] != by_idx[f]['engine']]
+    Add('failx', [f, other[k % len(other)]],
+        [solo_seeds[k % len(solo_seeds)]], ['parse', 'reuse'], 2)
   # every program in a pair
   order = [e['idx'] for e in entries]
   rng.shuffle(order)
@@ -127,7 +175,8 @@ def Windows(entries, tier):
     seeds = [solo_seeds[(2 * k) % len(solo_seeds)],
              solo_seeds[(2 * k + 1) % len(solo_seeds)]]
     heavy = max(cost[p] for p in pr) > 1
-    Add('pair', pr, seeds[:1] if heavy else seeds,
+    two = (k % cfg['pair_two_seeds'] == 0) and not heavy
+    Add('pair', pr, seeds if two else seeds[:1],
         ['parse', 'reuse'], 2 if heavy else cfg['pair_maxlen'])
   light = [p for p in order if cost[p] == 1]
   for k in range(cfg['deep_windows']):
@@ -186,9 +235,11 @@ def Enumerate(windows, workdir, shards):
   stats['transitions'] = stats['generated'] - stats['initial']
   stats['actions'] = dict(stats['actions'])
   # every state whose last action is a Compile is one exported history
-  if len(histories) != stats['actions'].get('DoCompile', -1):
-    raise RuntimeError('%d histories parsed, DoCompile produced %s states' % (
-        len(histories), stats['actions'].get('DoCompile')))
+  n_steps = (stats['actions'].get('DoCompile', 0) +
+             stats['actions'].get('DoFail', 0))
+  if len(histories) != n_steps:
+    raise RuntimeError('%d histories parsed, DoCompile + DoFail produced %s '
+                       'states' % (len(histories), n_steps))
   histories.sort(key=lambda h: (h['w'], len(h['h']), json.dumps(h['h'])))
   for k, h in enumerate(histories):
     h['id'] = 'h%06d' % k
@@ -207,27 +258,45 @@ def ExpectedCount(w):
   return total
 
 
-def AsBuiltPrediction(windows, workdir):
-  """TLC on the implementation-shaped model (sticky parser flag) over the
-  incant windows: it must find a history violating the property (rule R1:
-  exploration only)."""
-  inc = [w for w in windows if w['tag'] == 'incant' and w['sensitive'] and
-         'reuse' in w['modes']][:1]
-  if not inc:
-    return None
-  path = os.path.join(workdir, 'windows_asbuilt.ndjson')
-  with open(path, 'w') as f:
-    f.write(json.dumps(inc[0]) + '\n')
-  r = tlc.Run('History', cfg='MCHistoryAsBuilt.cfg', workers=1,
-              env=dict(JVM_ENV, C13_WINDOWS=path), tag='c13_asbuilt',
-              heap='1g', timeout=600)
-  trace = [json.loads(json.loads('"' + m.group(1) + '"'))['h']
-           for m in H_RE.finditer(r.out)]
-  m = re.search(r'/\\ hist = (<<.*?>>)\n(?:/\\|\n)', r.out[r.out.rfind('State '):],
-                re.S)
-  return {'violated': r.invariant_violated, 'states': r.distinct,
-          'window': inc[0],
-          'counterexample_last_state_hist': m.group(1) if m else ''}
+AS_BUILT = {
+    # model -> (cfg, which window it is checked on)
+    'asbuilt': ('MCHistoryAsBuilt.cfg', lambda w, stage: (
+        w['tag'] == 'incant' and w['sensitive'] and
+        all(stage[p] == 'ok' for p in w['progs']))),
+    'failsticky': ('MCHistory_failsticky.cfg', lambda w, stage: (
+        w['tag'] == 'incant' and w['sensitive'] and
+        any(stage[p] == 'parse' for p in w['incant']))),
+    'leak': ('MCHistory_leak.cfg', lambda w, stage: w['tag'] == 'xeng2'),
+}
+
+
+def AsBuiltPredictions(windows, workdir):
+  """TLC on the three implementation-shaped models (sticky parser flag; flag
+  surviving a FAILED parse; dialect tables leaking into the next engine), each
+  over one of the windows whose histories are replayed: it must find a history
+  violating the property there - the evidence that these shapes are among the
+  enumerated histories (rule R1: exploration only, no verdict)."""
+  def One(model):
+    cfg, pred = AS_BUILT[model]
+    pick = [w for w in windows
+            if pred(w, {a['n']: a['stage'] for a in w['attrs']})][:1]
+    if not pick:
+      return model, None
+    path = os.path.join(workdir, 'windows_%s.ndjson' % model)
+    with open(path, 'w') as f:
+      f.write(json.dumps(pick[0]) + '\n')
+    r = tlc.Run('History', cfg=cfg, workers=1,
+                env=dict(JVM_ENV, C13_WINDOWS=path), tag='c13_' + model,
+                heap='1g', timeout=900)
+    m = re.search(r'/\\ hist = (<<.*?>>)\n(?:/\\|\n)',
+                  r.out[r.out.rfind('State '):], re.S)
+    return model, {'violated': r.invariant_violated, 'states': r.distinct,
+                   'window': {k: pick[0][k] for k in
+                              ('tag', 'progs', 'modes', 'maxlen', 'attrs')},
+                   'counterexample_last_state_hist':
+                       re.sub(r'\s+', ' ', m.group(1)) if m else ''}
+  with cf.ThreadPoolExecutor(max_workers=3) as ex:
+    return dict(ex.map(One, sorted(AS_BUILT)))
 
 
 # ---- selection ----------------------------------------------------------------------
@@ -249,7 +318,7 @@ def Shape(h):
   return len(segs), sum(len(a) for _, a in segs)
 
 
-def Select(histories, windows, tier):
+def Select(histories, windows, tier, entries):
   """Returns (required, optional): the histories to replay.  `required` (the
   baseline recording of every program: fresh process, first seed, parse; all
   single-process histories of the incantation windows) is always replayed;
@@ -262,13 +331,23 @@ def Select(histories, windows, tier):
   by_w = collections.defaultdict(list)
   for h in histories:
     by_w[h['w']].append(h)
-  required, lane_a, samples_by_w = [], [], []
+  required, lane_a, samples_by_w, xeng3 = [], [], [], []
   first_seed = windows[0]['seeds'][0]
+  # one program of every corpus kind is always recorded under a second seed,
+  # so that every kind is compared at least once whatever the time budget
+  second = set()
+  for kind in list(c13corpus.REQUIRED_KINDS) + ['stopfile-candidate']:
+    for e in entries:
+      if kind in e['kind']:
+        second.add(e['idx'])
+        break
+  two_seed_done = False
   for wi, w in enumerate(windows):
     hs = by_w[wi]
     if w['tag'] == 'solo':
       for h in hs:
-        if h['h'][0]['n'] == first_seed:
+        if h['h'][0]['n'] == first_seed or (
+            w['progs'][0] in second and h['h'][0]['n'] == w['seeds'][1]):
           required.append(h)
         else:
           lane_a.append((w['seeds'].index(h['h'][0]['n']), 0, h['id'], h))
@@ -278,28 +357,80 @@ def Select(histories, windows, tier):
         segs = Segments(h)
         modes = tuple(m for _, m in segs[0][1])
         if len(segs) == 1 and modes in patterns:
-          lane_a.append((1 + patterns.index(modes), 1, h['id'], h))
-    elif w['tag'] == 'incant3' and tier == 'quick':
-      single = [h for h in hs if Shape(h)[0] == 1]
-      samples_by_w.append(rng.sample(single, min(len(single), 12)))
+          if w['attrs'][0]['stage'] != 'ok' and modes == ('reuse',):
+            required.append(h)     # a failing step from a kept rules object
+          else:
+            lane_a.append((1 + patterns.index(modes), 1, h['id'], h))
     elif w['tag'] in ('incant', 'incant3'):
-      single = [h for h in hs if Shape(h)[0] == 1]
-      multi = [h for h in hs if Shape(h)[0] > 1]
-      required += single
-      samples_by_w.append(rng.sample(multi, min(len(multi),
-                                                cfg['incant_other'])))
+      # always: one process, an incantation program (compiling or failing)
+      # IMMEDIATELY followed by a flag-sensitive program
+      must, rest = [], []
+      for h in hs:
+        segs = Segments(h)
+        acts = segs[0][1]
+        if len(segs) == 1 and any(
+            acts[k][0] in w['incant'] and acts[k + 1][0] in w['sensitive']
+            for k in range(len(acts) - 1)):
+          (must if len(acts) == 2 or w['tag'] == 'incant3' else rest).append(h)
+        else:
+          rest.append(h)
+      if w['tag'] == 'incant3':
+        must, more = must[:4], must[4:]
+        rest = more + rest
+      required += must
+      samples_by_w.append(rng.sample(rest, min(len(rest),
+                                               cfg['incant_other'])))
+    elif w['tag'] == 'xeng2':
+      # always: both orders of the two engines in one process
+      must = [h for h in hs if Shape(h) == (1, 2) and
+              len({p for p, _ in Segments(h)[0][1]}) == 2]
+      required += must
+      samples_by_w.append([])
+    elif w['tag'] == 'xeng3':
+      perms = [h for h in hs if Shape(h) == (1, 3) and
+               len({p for p, _ in Segments(h)[0][1]}) == 3]
+      xeng3.append(perms)
+    elif w['tag'] == 'failx':
+      # always: the failing program (re-parsed, and from a kept rules object)
+      # immediately followed by the victim of another engine
+      stage = {a['n']: a['stage'] for a in w['attrs']}
+      must = [h for h in hs if Shape(h) == (1, 2) and
+              stage[Segments(h)[0][1][0][0]] != 'ok' and
+              Segments(h)[0][1][1] == (w['victims'][0], 'parse')]
+      required += must
+      rest = [h for h in hs if h not in must and Shape(h)[0] == 1]
+      samples_by_w.append(rng.sample(rest, min(len(rest), 2)))
     else:
       groups = collections.defaultdict(list)
       for h in hs:
         groups[Shape(h)].append(h)
       pick = []
+      if not two_seed_done and len(w['seeds']) > 1:
+        # always: one history of two processes with different seeds
+        for h in groups.get((2, 2), []):
+          if len({sd for sd, _ in Segments(h)}) == 2:
+            required.append(h)
+            two_seed_done = True
+            break
       for shape, k in sorted(cfg['quota'].items(),
                              key=lambda x: (-x[0][1], x[0][0])):
         pool = groups.get(shape, [])
         pick += rng.sample(pool, min(k, len(pool)))
       samples_by_w.append(pick)
+  # ordered triples of engines: some always (one per window in thorough), the
+  # others first in lane B
+  flat3 = [h for perms in xeng3 for h in perms]
+  if cfg['xeng3_required'] >= len(xeng3):
+    must3 = [rng.choice(perms) for perms in xeng3 if perms]
+  else:
+    must3 = rng.sample(flat3, min(len(flat3), cfg['xeng3_required']))
+  required += must3
+  rest3 = [h for h in flat3 if h not in must3]
+  rng.shuffle(rest3)
+  if tier == 'quick':
+    rest3 = rest3[:24]
   lane_a = [x[-1] for x in sorted(lane_a, key=lambda x: x[:3])]
-  lane_b = []
+  lane_b = list(rest3)
   depth = max([len(l) for l in samples_by_w] or [0])
   for k in range(depth):
     for lst in samples_by_w:
@@ -397,8 +528,8 @@ def TraceOf(h, windows, loaded):
       ai = 0
       rec = loaded[segs[si]]
       events.append({'step': step, 'a': 'new', 'seed': rec['seed'], 'prog': 0,
-                     'pred': '', 'mode': '-', 'used': False, 'sql': '',
-                     'aux': ''})
+                     'pred': '', 'mode': '-', 'used': False, 'pf': False,
+                     'sql': '', 'aux': ''})
     else:
       rec = loaded[segs[si]]
       for e in rec['events']:
@@ -406,10 +537,11 @@ def TraceOf(h, windows, loaded):
           events.append({'step': step, 'a': 'ev', 'seed': rec['seed'],
                          'prog': e['prog'], 'pred': e['pred'],
                          'mode': e['mode'], 'used': e['used'],
+                         'pf': bool(e['parse_failed']),
                          'sql': e['sql'], 'aux': e['aux']})
       ai += 1
   return {'id': h['id'], 'hist': h['h'], 'inc': windows[h['w']]['incant'],
-          'events': events}
+          'attrs': windows[h['w']]['attrs'], 'events': events}
 
 
 V_RE = re.compile(r'<<"V",\s*"((?:[^"\\]|\\.)*)"\s*>>')
@@ -511,6 +643,10 @@ def Signature(dv, entry, ev, fev, seg, fseg, got_text, want_text,
               equals_variant):
   return {'kind': 'digest-differs', 'clause': dv['clause'],
           'explained_by_sticky_parser_flag': bool(dv['explained']),
+          'explained_by_flag_left_by_failed_parse':
+              bool(dv.get('explained_fail')),
+          'other_engine_compiled_before_in_process':
+              bool(dv.get('explained_leak')),
           'equals_incanted_variant': equals_variant,
           'seed_differs_from_first': bool(seg and fseg and seg[0] != fseg[0]),
           'iteration_program': bool(ev and ev.get('iterations')),
@@ -579,8 +715,12 @@ def Judge(entries, windows, histories, runner, workdir, tag, shards,
                 h['id'], dv['step'], dv['prog'],
                 by_idx.get(dv['prog'], {}).get('id'), dv['mode'], dv['pred'],
                 dv['clause'],
-                ' [as-built model: parsed while the parser flag was on]'
-                if dv['explained'] else '', dv['first_trace'],
+                (' [as-built model: parsed while the parser flag was on]'
+                 if dv['explained'] else '') +
+                (' [flag left on by a failed parse]'
+                 if dv.get('explained_fail') and not dv['explained'] else '') +
+                (' [another engine was compiled before in this process]'
+                 if dv.get('explained_leak') else ''), dv['first_trace'],
                 dv['first_step'], HistoryText(h, by_idx)), flush=True)
   return {'order': order, 'traces': traces, 'verdicts': verdicts,
           'vstats': vstats, 'deviations': deviations, 'shape_bad': shape_bad,
@@ -628,7 +768,8 @@ def Classify(j, entries, windows, runner, workdir, classifier):
   by_idx = {e['idx']: e for e in entries}
   groups = collections.OrderedDict()
   for h, dv in j['deviations']:
-    key = (dv['prog'], dv['pred'], dv['clause'], dv['got'], dv['explained'])
+    key = (dv['prog'], dv['pred'], dv['clause'], dv['got'], dv['explained'],
+           dv.get('explained_fail'), dv.get('explained_leak'))
     groups.setdefault(key, []).append((h, dv))
   variants = {}
   violations, known = [], collections.Counter()
@@ -640,7 +781,7 @@ def Classify(j, entries, windows, runner, workdir, classifier):
     fh = j['hist_by_id'].get(dv['first_trace'])
     fseg, fev = FirstEvent(fh, dv, j['loaded']) if fh else (None, None)
     equals_variant = None
-    if dv['explained']:
+    if dv['explained'] or dv.get('explained_fail'):
       vk = (dv['prog'], dv['pred'])
       if vk not in variants:
         variants[vk] = IncantedVariant(entry, dv['pred'], h['h'][0]['n'],
@@ -750,6 +891,8 @@ def Coverage(entries, windows, j):
       nontrivial += len(distinct) - 1
   shapes = collections.Counter()
   feats = collections.Counter()
+  engine_pairs, engine_triples = set(), set()
+  next_after_failed_inc = set()
   for h in j['order']:
     segs = Segments(h)
     shapes['%d process(es), %d compile(s)' % Shape(h)] += 1
@@ -778,9 +921,66 @@ def Coverage(entries, windows, j):
       if hit:
         feats['incantation_then_flag_sensitive_same_process'] += 1
         break
+    # --- failing steps and engine orders (required shapes of every run)
+    stage = {a['n']: a['stage'] for a in w['attrs']}
+    eng = {a['n']: a['eng'] for a in w['attrs']}
+    for _, acts in segs:
+      ps = [p for p, _ in acts]
+      for k in range(len(ps) - 1):
+        a, b = ps[k], ps[k + 1]
+        if stage[a] != 'ok' and a != b:
+          feats['after_failed_%s_step' % stage[a]] += 1
+          if (acts[k][1] == 'reuse' and stage[a] != 'parse'):
+            feats['after_failed_step_from_kept_rules_object'] += 1
+          if a in w['incant'] and stage[a] == 'parse' and b in w['sensitive']:
+            feats['failed_incantation_parse_then_flag_sensitive_next'] += 1
+            next_after_failed_inc.add(by_idx[b]['id'])
+          if b in w['victims'] and eng[a] != eng[b]:
+            feats['failed_step_then_victim_of_other_engine'] += 1
+        if b in w['victims'] and eng[a] != eng[b]:
+          engine_pairs.add((eng[a], eng[b]))
+      vs = [p for p in ps if p in w['victims']]
+      if len(vs) == 3 and len({eng[p] for p in vs}) == 3 and len(ps) == 3:
+        engine_triples.add(tuple(eng[p] for p in vs))
   used_events = sum(1 for rec in j['loaded'].values() for e in rec['events']
                     if e['used'])
+  # failing programs did fail the way the corpus says, victims compiled
+  fail_seen = collections.defaultdict(set)
+  victim_ok = set()
+  for seg, rec in j['loaded'].items():
+    if len(seg[1]) != 1:
+      continue          # judged in a fresh process only
+    for e in rec['events']:
+      entry = by_idx[e['prog']]
+      if entry['fail_stage'] == 'exec':
+        fail_seen[entry['id']].add(e['status'] + '/' + e.get('exec', ''))
+      elif entry['fail_stage'] != 'ok':
+        fail_seen[entry['id']].add(e['status'])
+      if 'victim' in entry['kind'] and e['status'] == 'ok':
+        victim_ok.add(entry['engine'])
+  fail_wrong = {}
+  for e in entries:
+    if e['fail_stage'] == 'ok':
+      continue
+    want = ('ok/error:' + e['fail_class'] if e['fail_stage'] == 'exec'
+            else 'error:' + e['fail_class'])
+    if fail_seen.get(e['id']) != {want}:
+      fail_wrong[e['id']] = sorted(fail_seen.get(e['id'], ()))
+  engines = sorted({e['engine'] for e in entries if 'victim' in e['kind']})
+  all_pairs = {(a, b) for a in engines for b in engines if a != b}
+  used_builtins = set()
+  for e in entries:
+    if 'victim' in e['kind'] and e['engine'] in victim_ok:
+      used_builtins |= set(e['victim_uses'])
   return {
+      'engine_ordered_pairs': len(engine_pairs & all_pairs),
+      'engine_ordered_pairs_missing': sorted(
+          '%s>%s' % p for p in all_pairs - engine_pairs),
+      'engine_ordered_triples': len(engine_triples),
+      'victims_compiled': sorted(victim_ok), 'victim_engines': engines,
+      'differing_builtins_in_compiled_victims': len(used_builtins),
+      'failing_programs_not_failing_as_declared': fail_wrong,
+      'programs_after_failed_incantation_parse': sorted(next_after_failed_inc),
       'events': events, 'nontrivial': nontrivial, 'status': dict(status),
       'kinds_events': dict(kinds_events), 'kinds_ok': dict(kinds_ok),
       'kinds_programs': {k: len(v) for k, v in kinds_progs.items()},
@@ -795,16 +995,52 @@ def Coverage(entries, windows, j):
   }
 
 
-def Missing(cov, entries):
+REQUIRED_HISTORY_FEATURES = (
+    'has_reuse', 'program_repeated', 'different_programs_in_one_process',
+    'several_seeds', 'incantation_then_flag_sensitive_same_process',
+    'window:solo', 'window:soloreuse', 'window:incant', 'window:pair',
+    'window:xeng2', 'window:xeng3', 'window:failx',
+    # shape A: failing steps of every stage, in particular a FAILED parse of an
+    # incantation program immediately followed by a flag-sensitive program
+    'failed_incantation_parse_then_flag_sensitive_next',
+    'after_failed_parse_step', 'after_failed_compile_step',
+    'after_failed_type_step', 'after_failed_exec_step',
+    'after_failed_step_from_kept_rules_object',
+    'failed_step_then_victim_of_other_engine')
+
+
+def Missing(cov, entries, cinfo):
   missing = []
   for k in c13corpus.REQUIRED_KINDS:
-    if cov['kinds_ok'].get(k, 0) < 2:
+    n = (cov['kinds_events'] if k.startswith('fails:')
+         else cov['kinds_ok']).get(k, 0)
+    if n < 2:
       missing.append('kind:' + k)
-  for f in ('has_reuse', 'program_repeated', 'different_programs_in_one_process',
-            'several_seeds', 'incantation_then_flag_sensitive_same_process',
-            'window:solo', 'window:soloreuse', 'window:incant', 'window:pair'):
+  for f in REQUIRED_HISTORY_FEATURES:
     if cov['history_features'].get(f, 0) == 0:
       missing.append('history:' + f)
+  # shape B: every ordered pair of engines, victims of all engines, every
+  # differing built-in in a victim that compiled
+  if cov['engine_ordered_pairs_missing']:
+    missing.append('engine orders never replayed: %s' %
+                   cov['engine_ordered_pairs_missing'][:6])
+  if cov['engine_ordered_triples'] == 0:
+    missing.append('no ordered triple of engines')
+  if cov['victims_compiled'] != cov['victim_engines'] or len(
+      cov['victim_engines']) < 8:
+    missing.append('victim programs compiled only for %s' %
+                   cov['victims_compiled'])
+  if cov['differing_builtins_in_compiled_victims'] < len(
+      cinfo['differing_builtins']):
+    missing.append('differing built-ins used by no victim')
+  if cov['failing_programs_not_failing_as_declared']:
+    missing.append('failing programs behave otherwise: %s' %
+                   cov['failing_programs_not_failing_as_declared'])
+  tight = {'tm/paren', 'tm/equiv'} - set(
+      cov['programs_after_failed_incantation_parse'])
+  if tight:
+    missing.append('never right after a failed incantation parse: %s' %
+                   sorted(tight))
   if cov['events_from_used_rules_object'] == 0:
     missing.append('used rules object')
   if cov['distinct_str_hash_values_across_seeds'] < 2:
@@ -847,7 +1083,7 @@ def Run(tier):
   # the solo runs do not depend on TLC's export order: start TLC in the
   # background and begin with nothing else - TLC is short
   with cf.ThreadPoolExecutor(max_workers=2) as ex:
-    fut_asbuilt = ex.submit(AsBuiltPrediction, windows, workdir)
+    fut_asbuilt = ex.submit(AsBuiltPredictions, windows, workdir)
     try:
       histories, stats = Enumerate(windows, workdir,
                                    shards=2 if tier == 'quick' else 6)
@@ -860,7 +1096,7 @@ def Run(tier):
     return Fail('TLC exported %d histories, the windows have %d' % (
         len(histories), want), 'enumeration incomplete')
 
-  required, optional = Select(histories, windows, tier)
+  required, optional = Select(histories, windows, tier, entries)
   runner = Runner(corpus_path, workdir, None)
   req_segs = [s for h in required for s in Segments(h)]
   opt_segs = [s for h in optional for s in Segments(h)]
@@ -893,17 +1129,31 @@ def Run(tier):
   for fid in classifier.NotReproduced():
     print('NOTE property=%s listed finding %s was not reproduced on this tree'
           % (PROP, fid), flush=True)
-  predicted = bool(asbuilt and asbuilt['violated'])
-  explained_devs = [
-      u for u in uniq
-      if u['signature']['explained_by_sticky_parser_flag'] and
-      u['signature']['equals_incanted_variant'] and
-      not u['signature']['same_lines_modulo_order_and_numbering']]
-  if predicted and not explained_devs:
-    print('MODEL-DRIFT property=%s the implementation-shaped model (sticky '
-          'parser flag) predicts a deviation after an incantation program; '
-          'the code shows none (informational: the property holds there)'
-          % PROP, flush=True)
+  # the three implementation-shaped models must each find a violating history
+  # among the enumerated ones (else these shapes are not explored); the code
+  # not deviating where a model does is MODEL-DRIFT (informational)
+  unpredicted = [m for m in sorted(AS_BUILT)
+                 if not (asbuilt.get(m) and asbuilt[m]['violated'])]
+  label = {'asbuilt': 'explained_by_sticky_parser_flag',
+           'failsticky': 'explained_by_flag_left_by_failed_parse',
+           'leak': 'other_engine_compiled_before_in_process'}
+  what = {'asbuilt': 'sticky parser flag after an incantation program',
+          'failsticky': 'parser flag left on by a FAILED parse of an '
+                        'incantation program',
+          'leak': 'translation tables of an engine compiled earlier leak into '
+                  'the next engine'}
+  for m in sorted(AS_BUILT):
+    if m in unpredicted:
+      continue
+    hit = [u for u in uniq if u['signature'][label[m]] and
+           not u['signature']['same_lines_modulo_order_and_numbering']]
+    if not hit:
+      print('MODEL-DRIFT property=%s the implementation-shaped model "%s" (%s) '
+            'violates the property on %s; the code shows no such deviation '
+            '(informational: the property holds there)' % (
+                PROP, m, what[m],
+                asbuilt[m]['counterexample_last_state_hist'][:300]),
+            flush=True)
   cov = Coverage(entries, windows, j)
   if cov['events_differing_only_in_container_order']:
     print('NOTE property=%s %d recorded event(s) differ from an equal-SQL '
@@ -915,13 +1165,17 @@ def Run(tier):
   n_opt_done = sum(1 for h in optional
                    if all(s in runner.done for s in Segments(h)))
   rc = 1 if violations else 0
-  missing = Missing(cov, entries)
+  missing = Missing(cov, entries, cinfo)
   if n_opt_done < len(optional):
     print('NOTE property=%s %d of %d selected histories beyond the baseline '
           'were not replayed: the replay phase passed its %d s budget (loaded '
           'machine)'
           % (PROP, len(optional) - n_opt_done, len(optional),
              cfg['deadline_s']), flush=True)
+  if unpredicted:
+    missing.append('TLC found no violating history for the as-built models '
+                   '%s: the shape is not among the enumerated histories'
+                   % unpredicted)
   if missing:
     print('MACHINERY-FAILURE property=%s never exercised: %s' % (PROP, missing),
           flush=True)
@@ -975,6 +1229,16 @@ def Run(tier):
           cov['distinct_str_hash_values_across_seeds'],
       'events_differing_only_in_container_order':
           cov['events_differing_only_in_container_order'],
+      'engine_ordered_pairs_replayed': cov['engine_ordered_pairs'],
+      'engine_ordered_triples_replayed': cov['engine_ordered_triples'],
+      'victim_engines': cov['victim_engines'],
+      'differing_builtins_derived': cinfo['differing_builtins'],
+      'differing_builtins_in_compiled_victims':
+          cov['differing_builtins_in_compiled_victims'],
+      'victim_builtins_per_engine': cinfo['victim_uses'],
+      'victim_builtins_rejected': cinfo['victim_rejected'],
+      'programs_after_failed_incantation_parse':
+          cov['programs_after_failed_incantation_parse'],
       'deviating_traces': n_bad,
       'unique_deviations': uniq[:20],
       'known_findings_reproduced': dict(known),
@@ -1073,7 +1337,7 @@ def Replay(path):
     seg, ev = EventOf(hh, dv, windows, loaded)
     fseg, fev = FirstEvent(j['hist_by_id'][dv['first_trace']], dv, loaded)
     equals_variant = None
-    if dv['explained']:
+    if dv['explained'] or dv.get('explained_fail'):
       var = IncantedVariant(entry, dv['pred'], hh['h'][0]['n'], workdir)
       if var is not None:
         equals_variant = var[1 if dv['clause'] == 'aux' else 0] == dv['got']
